@@ -3,6 +3,7 @@ package main
 import (
 	"bytes"
 	"fmt"
+	"sort"
 
 	asv1 "github.com/pingcap/advanced-statefulset/client/apis/apps/v1"
 	appsv1 "k8s.io/api/apps/v1"
@@ -333,6 +334,60 @@ func rollbackFaultScenario(kind, mode string, catchUp, nilOnError bool) func(*fa
 	}
 }
 
+// C13 directed: the history limit is lowered so that one reconcile has to trim several revisions, and the
+// delete of the k-th candidate (oldest first) fails; a reconcile that nevertheless reports success is held
+// to the post-condition by the per-reconcile monitor (at most limit unused revisions remain, oldest first).
+func bulkTrimFault(k int, kind, mode string, limit int32) func(*fam) {
+	return func(f *fam) {
+		w, r := f.w, f.r
+		r.Sets = []string{"web"}
+		p := int32(0)
+		w.Srv.Seed(simapi.Sets, world.NewSet(world.SetOpts{Name: "web", Replicas: 1, Partition: &p, HistLimit: 10, TemplateV: 0}))
+		w.DeliverAll()
+		r.Calm(1)
+		for _, v := range []int{1, 2, 3} {
+			v := v
+			w.EditSet("web", func(s *asv1.StatefulSet) { s.Spec.Template = world.Template(s.Spec.Selector.MatchLabels, v) })
+			w.DeliverAll()
+			if cr := r.Calm(1); !cr.Converged {
+				f.res.Inconclusive = append(f.res.Inconclusive, "bulk trim scenario did not reach its start state")
+				return
+			}
+		}
+		set := w.GetSet("web")
+		var unused []*appsv1.ControllerRevision
+		for _, rev := range world.RevisionsOf(w.Srv.Snap(), world.NS) {
+			if rev.Name != set.Status.CurrentRevision && rev.Name != set.Status.UpdateRevision {
+				unused = append(unused, rev)
+			}
+		}
+		sort.Slice(unused, func(i, j int) bool { return unused[i].Revision < unused[j].Revision })
+		if len(unused) < 3 || k >= len(unused) {
+			f.res.Inconclusive = append(f.res.Inconclusive, fmt.Sprintf("bulk trim scenario: %d unused revisions, wanted 3", len(unused)))
+			return
+		}
+		w.EditSet("web", func(s *asv1.StatefulSet) { s.Spec.RevisionHistoryLimit = world.I32(limit) })
+		w.DeliverAll()
+		r.Trace = append(r.Trace, fmt.Sprintf("directed bulk trim: limit 10 -> %d with %d unused revisions, delete of candidate %d (%s) answered with %s/%s", limit, len(unused), k, unused[k].Name, kind, mode))
+		w.Srv.AddFault(&simapi.Fault{Identity: "delete|controllerrevisions||" + unused[k].Name, Occ: 0, Kind: kind, Mode: mode})
+		rec := r.Reconcile("web")
+		w.Srv.ClearFaults()
+		fired := false
+		for _, c := range rec.Calls {
+			if c.Injected != "" {
+				fired = true
+			}
+		}
+		if !fired {
+			f.res.Inconclusive = append(f.res.Inconclusive, "bulk trim scenario: the faulted delete was never issued")
+			return
+		}
+		f.st.Inc("bulk_trim_fault_scenarios")
+		w.DeliverAll()
+		r.Calm(1)
+	}
+}
+
 // longSetName returns a valid DNS-1123 name of n characters.
 func longSetName(n int) string {
 	const unit = "tidb-cluster-production-"
@@ -359,6 +414,8 @@ func init() {
 		claimHistory(asv1.OrderedReadyPodManagement, longSetName(62), 1), claimHistory(asv1.ParallelPodManagement, longSetName(63), 0),
 		claimHistory(asv1.ParallelPodManagement, longSetName(61), 2),
 	}
+	directedC13 = []func(*fam){bulkTrimFault(0, "500", "before", 0), bulkTrimFault(1, "500", "before", 0), bulkTrimFault(0, "timeout", "before", 1),
+		bulkTrimFault(0, "conflict", "before", 0), bulkTrimFault(1, "timeout", "after", 0), bulkTrimFault(0, "500", "after", 1)}
 	directedC08 = []func(*fam){collisionScenario(false), collisionScenario(true),
 		collisionScenario2(false, true, true), collisionScenario2(false, true, false), collisionScenario2(false, false, true), collisionScenario2(true, true, true),
 		rollbackFaultScenario("conflict", "before", false, false), rollbackFaultScenario("conflict", "before", true, false), rollbackFaultScenario("500", "before", false, false),
